@@ -234,7 +234,7 @@ PROPS = {
         model_limits='environment independence of the 39 handlers themselves rests on the extracted envUses/mapRanges tables plus twin replicas (identity, role, witness flag differ; Go map order differs per run), not on per-handler proofs; IAVL determinism is trusted (validated under C09)'),
     'C02': dict(
         lean_modules=['OLP.Props.C02', 'OLP.Props.C02Facts', 'OLP.Props.C02Funcs', 'OLP.Props.C02Bid'], lean_targets=['olpfuncs02'], namespaces=['OLP.Props.C02'],
-        required_theorems=['bid_wf_step', 'bid_wf_history', 'bid_step_conserves_value', 'bid_history_conserves_value', 'bid_amounts_nonneg', 'bid_debits_only_authorised', 'bid_refund_exact', 'bid_payout_exact', 'bid_asset_moves_only_on_acceptance', 'minusFrom_is_source', 'coin_comparisons_spec', 'toCoinWithBase_is_source', 'stake_coinOf_is_source', 'addTo_is_source', 'coinMinus_spec', 'coinPlus_spec', 'ledger_wrap64_is_source', 'stake_int64Of_is_source', 'checkInRange_spec', 'transfer_conserves', 'transfer_nonneg', 'negative_credit_breaks_nonneg', 'send_conserves', 'send_nonneg', 'mismatched_coins_change_total', 'toCoinWithBase_wraps', 'wrap64_exact_iff', 'history_no_creation'],
+        required_theorems=['bid_wf_step', 'bid_wf_history', 'bid_step_conserves_value', 'bid_history_conserves_value', 'bid_amounts_nonneg', 'bid_debits_only_authorised', 'bid_refund_exact', 'bid_payout_exact', 'bid_asset_moves_only_on_acceptance', 'minusFrom_is_source', 'isValid_is_source', 'coin_comparisons_spec', 'toCoinWithBase_is_source', 'stake_coinOf_is_source', 'addTo_is_source', 'coinMinus_spec', 'coinPlus_spec', 'ledger_wrap64_is_source', 'stake_int64Of_is_source', 'checkInRange_spec', 'transfer_conserves', 'transfer_nonneg', 'negative_credit_breaks_nonneg', 'send_conserves', 'send_nonneg', 'mismatched_coins_change_total', 'toCoinWithBase_wraps', 'wrap64_exact_iff', 'history_no_creation'],
         run=run_c02, replay=replay_olh('ledger'), level='proof',
         assumptions=['the value ledger is decoded from the committed tree by the harness (record classes and units in harness/apph/ledger.go DecodeLedger); active network delegations are counted through the delegation pool balance that mirrors them (C12)',
                      'allowed per-block accrual = the DelegationPool attribute of the block_rewards event (C13 bounds it by the schedule); wrapped-currency locks do not occur in the genesis families used here (C15)'],
